@@ -78,8 +78,9 @@ def exec (S : State) : Cmd → Option (State × String)
   | .eq i j => if S.validObj i && S.validObj j then some (S, fmtBool (raEq S i j)) else none
   | .hash i =>
     if S.validObj i then
-      let h := hashKey S i
-      some (S, "h" ++ toString h.1 ++ "/" ++ String.intercalate ";" (h.2.map (fun e => toString e.1 ++ ":" ++ fmtInts e.2)))
+      match raHash S i with
+      | .ok h => some (S, "h" ++ toString h.1 ++ "/" ++ String.intercalate ";" (h.2.map (fun e => toString e.1 ++ ":" ++ fmtInts e.2)))
+      | .error e => some (S, "E:" ++ e.name)
     else none
   | .has i n => if S.validObj i && S.validNs n then some (S, fmtBool (contains S i n)) else none
   | .get i c => if S.validObj i && S.validCls c then some (S, fmtExNs (getitem S i c)) else none
@@ -90,7 +91,11 @@ def exec (S : State) : Cmd → Option (State × String)
   | .ds c t => if (S.args c).isSome && decide (0 < t) then some (S, "s" ++ toString t) else none
   | .nseq a b => if S.validNs a && S.validNs b then some (S, fmtBool (nsEq a b)) else none
   | .nshash a =>
-    if S.validNs a then some (S, "g" ++ toString (nsHashKey a).1 ++ ":" ++ fmtInts (nsHashKey a).2) else none
+    if S.validNs a then
+      match nsHash a with
+      | .ok h => some (S, "g" ++ toString h.1 ++ ":" ++ fmtInts h.2)
+      | .error e => some (S, "E:" ++ e.name)
+    else none
   | .attr n i =>
     if S.validNs n then
       some (S, match nsGetattr n i with | .ok v => "v" ++ toString v | .error e => "E:" ++ e.name)
